@@ -109,6 +109,10 @@ usage:
 			if err != nil {
 				return nil, fmt.Errorf("arg: %w", err)
 			}
+			if i < 2 {
+				// a tree cannot be built with fewer than two entries per node
+				return nil, fmt.Errorf("entries_per_node must be at least 2: %s", s[1])
+			}
 			table.S3Options.EntriesPerNode = int(i)
 		case "node_cache_entries":
 			i, err := strconv.ParseInt(s[1], 0, 32)
